@@ -954,4 +954,49 @@ theorem classes_partition : ∀ l : List Job,
     simp only [countClass_cons, List.length_cons]
     rcases h4 with h | h | h | h <;> simp [h] <;> omega
 
+/-! ### file primitives: a coherent choice of paths is a store keyed by the file name -/
+namespace FS
+open PM.SM
+
+/-- the directory seen through `k.full` is the name-keyed store `a` -/
+def Sim (k : Paths) (s a : Store) : Prop := ∀ n, s (k.full n) = a n
+
+theorem sim_step {k : Paths} (hk : Coherent k) (s a : Store) (op : Op) (h : Sim k s a) :
+    Sim k (step k s op).1 (step real a op).1 ∧ (step k s op).2 = (step real a op).2 := by
+  obtain ⟨hl, hinj⟩ := hk
+  have hhas : ∀ n, hasFile k s n = hasFile real a n := by
+    intro n; simp [hasFile, hl, h n, real]
+  have hread : ∀ n, readFile k s n = readFile real a n := by
+    intro n; simp [readFile, h n, real]
+  have hwrite : ∀ n c, Sim k (writeFile k s n c) (writeFile real a n c) := by
+    intro n c m
+    simp only [writeFile, real, id]
+    by_cases e : m = n
+    · subst e; simp
+    · have : k.full m ≠ k.full n := fun he => e (hinj _ _ he)
+      simp [e, this, h m]
+  cases op with
+  | write n c => exact ⟨hwrite n c, rfl⟩
+  | delete n =>
+    refine ⟨?_, rfl⟩
+    intro m
+    simp only [step, deleteFile, real, id]
+    by_cases e : m = n
+    · subst e; simp
+    · have : k.full m ≠ k.full n := fun he => e (hinj _ _ he)
+      simp [e, this, h m]
+  | read n => exact ⟨h, by simp [step, hread]⟩
+  | has n => exact ⟨h, by simp [step, hhas]⟩
+  | openGroup n =>
+    simp only [step, hhas n]
+    by_cases e : hasFile real a n = true
+    · simp [e, h, hread]
+    · simp [e, hwrite n 0]
+
+theorem sim_empty (k : Paths) : Sim k empty empty := fun _ => rfl
+
+theorem real_coherent : Coherent real := ⟨fun _ => rfl, fun _ _ h => h⟩
+
+end FS
+
 end PM.C19
